@@ -660,7 +660,7 @@ def oracle_pdemux(ent, d):
 
 PAIRED_ORACLES = {
     "C03": lambda ent, d: oracle_slices(ent, d),
-    "C04": lambda ent, d: oracle_sync(ent) or oracle_step_counts(ent, d),
+    "C04": lambda ent, d: oracle_sync(ent) or oracle_step_counts(ent, d) or oracle_stats_cover_trimming(ent),
     "C05": lambda ent, d: oracle_sync(ent) or oracle_pair_adapters(ent) or oracle_decision(ent, d) or oracle_untrimmed_unit(ent),
     "C09": lambda ent, d: oracle_sides(ent, d) or oracle_c09_sides(ent),
     "C10": lambda ent, d: oracle_sides(ent, d) or oracle_late_shorten(ent, d),
@@ -671,7 +671,7 @@ PAIRED_ORACLES = {
 }
 PAIRED_FOCUS = {
     "C03": ("action", "adapters", "revcomp", "cut", "qual", "length", "times", "pairactions:0.2"),
-    "C04": ("filters", "demux", "combinatorial", "adapters", "qual", "nextseq", "sidefiles:0.3"),
+    "C04": ("filters", "demux", "combinatorial", "adapters", "qual", "nextseq", "sidefiles:0.3", "revcomp:0.25", "adapters2:0.7"),
     "C09": ("adapters", "adapters2:0.7", "times", "action"),
     "C05": tuple(x for x in FOCUS if x != "pair_adapters") + ("pair_adapters:0.35",),
     "C10": ("cut", "qual", "length", "adapters", "trimn", "names", "zerocap", "nextseq", "stageorder:0.15"),
@@ -738,6 +738,16 @@ def adjust(pid, rng, pcfg, pairs=None):
                 if rng.random() < 0.6:
                     k1, k2 = rng.randint(0, len(s1)), rng.randint(0, len(s2))
                     pairs[i] = ((n1, s1[:k1].lower() + s1[k1:], q1), (n2, s2[:k2].lower() + s2[k2:], q2))
+    if pid == "C04" and b.adapters and pcfg.adapters2 and not pcfg.pair_adapters and not pcfg.combinatorial and rng.random() < 0.15:
+        # paired --revcomp with adapters on both sides and nothing else that shortens the reads: the reported reads-with-adapter and
+        # the adapters' match counts of each side cover the mates of that side that were shortened
+        b.revcomp, b.action, b.times = True, "trim", 1
+        b.cuts, pcfg.cuts2, b.qcut, pcfg.qcut2, b.nextseq, b.length, pcfg.length2, b.trim_n, b.poly_a = (), (), None, None, None, None, None, False, False
+        if pairs is not None:
+            # in about half of the pairs the mates arrive exchanged: the adapters are then found only after the swap
+            for i, ((n1, s1, q1), (n2, s2, q2)) in enumerate(pairs):
+                if rng.random() < 0.5:
+                    pairs[i] = ((n1, s2, q2), (n2, s1, q1))
     if pid == "C10" and not b.fasta and rng.random() < 0.12:
         # quality base 64 with -q and no -Q: the shared quality step of R2 decodes with the same base as that of R1
         b.qbase = 64
